@@ -295,7 +295,7 @@ def gen_problem(rng, cfg, zero_resid=None):
         c = z + 0.5 * rng.normal(size=n)
         rad = float(np.linalg.norm(z - c) + rng.uniform(0.3, 1.0))
         proj = [['ball', hx(c), hx(rad)]]
-        if rng.random() < 0.4:
+        if spec.get('lo') is None and rng.random() < 0.6:      # at most two user sets + box: Dykstra is slow in pure Python
             a = rng.normal(size=n)
             proj.append(['halfspace', hx(a), hx(float(a.dot(z)) + rng.uniform(0.3, 1.0) * float(np.linalg.norm(a)))])
         spec['proj'] = proj
@@ -377,6 +377,8 @@ def make_spec(seed, i, j):
     spec['rhoend'] = hx(float(rng.choice([1e-8, 1e-5, 1e-3])))
     if base == 'reg':
         params['func_tol.max_iters'] = int(rng.choice([30, 60]))
+    if base == 'proj' and rng.random() < 0.5:
+        params['dykstra.max_iters'] = 30
     if cfg == 'regression':
         spec['npt'] = n + 1 + int(rng.integers(1, (n + 1) * (n + 2) // 2 - n))
         if rng.random() < 0.5:
@@ -414,7 +416,7 @@ def make_spec(seed, i, j):
 
 
 def tasks(seed, tier):
-    ntasks, per = (64, 6) if tier == 'quick' else (480, 16)
+    ntasks, per = (96, 4) if tier == 'quick' else (640, 12)
     return [dict(seed=int(seed), i=i, count=per, tier=tier) for i in range(ntasks)]
 
 
